@@ -524,8 +524,14 @@ class Interp:
         if isinstance(v, (int, float)):
             return self.ctx.to_val(v)
         if isinstance(v, SV):
+            if isinstance(v.ty, (TAny, TOpt)):
+                v = self.ctx.narrow(v)
             if isinstance(v.ty, (TNum, TBool)):
                 return v
+            if isinstance(v.ty, TOpt):
+                if self.ctx.branch(Z.is_none(v.t), "operand-is-None"):
+                    raise PyRaise(self.make_exception(ExternalRef("TypeError"), ["unsupported operand type NoneType"]))
+                return self.num_operand(self.ctx.typed(v.t, v.ty.inner))
             if isinstance(v.ty, TAny):
                 if self.ctx.branch(Z.is_num(v.t), "isnum"):
                     return v
@@ -699,6 +705,9 @@ class Interp:
                     return False
                 if isinstance(a, (ClassInfo, ExternalRef, ModuleInfo, Closure)) or isinstance(b, (ClassInfo, ExternalRef, ModuleInfo, Closure)):
                     return False
+                kinds = (VTuple, VList, VDict, VSet)
+                if isinstance(a, kinds) and isinstance(b, kinds) and type(a) is not type(b):
+                    return False        # a dict never equals a tuple, a list never equals a set, ...
                 raise Unsupported("container equality")
             if isinstance(a, (ClassInfo, ExternalRef, ModuleInfo, Builtin, Closure)) or isinstance(b, (ClassInfo, ExternalRef, ModuleInfo, Builtin, Closure)):
                 return self.identical(a, b)
